@@ -449,6 +449,18 @@ class Hist:
     def finish(self):
         self._ensure()
         ctx = self.ctx
+        # coverage sweep: every broadcast attribute of this class gets at least one valid and one wrong-length assignment
+        # per history (with arguments that are a fixed function of the attribute index), so that the (class, attribute)
+        # coverage demanded by REQUIRED_LABELS does not depend on the luck of the draw
+        for idx, attr in enumerate(list(self.attrs)):
+            synth = {"a": idx, "kind": ("list", "tuple", "scalar")[idx % 3], "u": [((idx * 7 + j * 3) % 10) / 10.0 + 0.03 for j in range(8)],
+                     "k": [(idx + 2 * j) % 11 for j in range(8)]}
+            if attr not in self.sets and (self.pre_assign() if hasattr(self, "pre_assign") else True):
+                self.do_assign(synth)
+                self.invariant()
+            if attr not in self.wrongs and (self.pre_assign_wrong() if hasattr(self, "pre_assign_wrong") else True):
+                self.do_assign_wrong(dict(synth, kind="list"))
+                self.invariant()
         ctx.label("class:" + self.gname)
         ctx.label(*sorted(self.lab))
         for a in sorted(self.sets):
